@@ -182,9 +182,12 @@ theorem afterTraverse_not_exit (g : Graph) (s : State) (w next prev : Nat) (dir 
       · simp only [hrun, Bool.false_eq_true, if_false]
         by_cases hc : isCleanupReady g s1 next w = true
         · simp only [hc, if_true]
-          cases reverseNode g (List.foldl (fun s x => dropChild g s x.1 next w) s1 (g.node next).setup) next w with
-          | error e => rfl
-          | ok r => rfl
+          by_cases hpost : (!(g.node next).flat && (s1.wd w).unexplored) = true
+          · simp only [hpost, if_true]; rfl
+          · simp only [hpost, Bool.false_eq_true, if_false]
+            cases reverseNode g (List.foldl (fun s x => dropChild g s x.1 next w) s1 (g.node next).setup) next w with
+            | error e => rfl
+            | ok r => rfl
         · simp only [hc, Bool.false_eq_true, if_false]
           cases pickChild g s1 next w with
           | none => rfl
